@@ -173,3 +173,10 @@ func (s *SourceControl) VerifActiveSource() DataSource { return s.ActiveSource }
 func (s *SourceControl) VerifStatusLengths() (npre, nsamp int) {
 	return s.status.Npresamp, s.status.Nsamples
 }
+
+// VerifSetCringeGlobalsPath points LanceroSource.Configure at another cringeGlobals.json and returns the old path.
+func VerifSetCringeGlobalsPath(p string) string {
+	old := cringeGlobalsPath
+	cringeGlobalsPath = p
+	return old
+}
